@@ -259,3 +259,78 @@ int bad_pss_emlen__short__cp_rsa_ver(bn_t eb, size_t sig_len, const bn_t n) {
 	}
 	return ok_pss__pad_pkcs2(eb, &pad_len, bn_bits(n), size, ST_VER);
 }
+
+/* ------------------------------------------------------------------ TRUNC */
+int ok_trunc__cp_ecdsa_sig(bn_t r, bn_t s, const uint8_t *msg, size_t len, const bn_t d) {
+	bn_t n, e;
+	bn_null(n);
+	bn_null(e);
+	bn_new(n);
+	bn_new(e);
+	ec_curve_get_ord(n);
+	if (8 * len > bn_bits(n)) {
+		len = (bn_bits(n) + 7) / 8;
+		bn_read_bin(e, msg, len);
+		bn_rsh(e, e, 8 * len - bn_bits(n));
+	} else {
+		bn_read_bin(e, msg, len);
+	}
+	bn_mul(s, d, r);
+	bn_add(s, s, e);
+	bn_mod(s, s, n);
+	return RLC_OK;
+}
+
+/* the shift follows the length of the decoded value: digests starting with zero bits keep too many bits */
+int bad_trunc__value__cp_ecdsa_sig(bn_t r, bn_t s, const uint8_t *msg, size_t len, const bn_t d) {
+	bn_t n, e;
+	bn_null(n);
+	bn_null(e);
+	bn_new(n);
+	bn_new(e);
+	ec_curve_get_ord(n);
+	bn_read_bin(e, msg, len);
+	if (bn_bits(e) > bn_bits(n)) {
+		bn_rsh(e, e, bn_bits(e) - bn_bits(n));
+	}
+	bn_mul(s, d, r);
+	bn_add(s, s, e);
+	bn_mod(s, s, n);
+	return RLC_OK;
+}
+
+/* whole bytes only: for orders whose length is not a multiple of 8 too few bits are discarded */
+int bad_trunc__bytes__cp_ecdsa_sig(bn_t r, bn_t s, const uint8_t *msg, size_t len, const bn_t d) {
+	bn_t n, e;
+	bn_null(n);
+	bn_null(e);
+	bn_new(n);
+	bn_new(e);
+	ec_curve_get_ord(n);
+	if (8 * len > bn_bits(n)) {
+		len = (bn_bits(n) + 7) / 8;
+		bn_read_bin(e, msg, len);
+		bn_rsh(e, e, 8 * (len - bn_bits(n) / 8));
+	} else {
+		bn_read_bin(e, msg, len);
+	}
+	bn_mul(s, d, r);
+	bn_add(s, s, e);
+	bn_mod(s, s, n);
+	return RLC_OK;
+}
+
+/* the truncation is gone */
+int bad_trunc__none__cp_ecdsa_sig(bn_t r, bn_t s, const uint8_t *msg, size_t len, const bn_t d) {
+	bn_t n, e;
+	bn_null(n);
+	bn_null(e);
+	bn_new(n);
+	bn_new(e);
+	ec_curve_get_ord(n);
+	bn_read_bin(e, msg, len);
+	bn_mul(s, d, r);
+	bn_add(s, s, e);
+	bn_mod(s, s, n);
+	return RLC_OK;
+}
